@@ -27,9 +27,11 @@ import (
 	"os/exec"
 	"path/filepath"
 	"regexp"
+	"os/signal"
 	"sort"
 	"strconv"
 	"strings"
+	"syscall"
 	"testing"
 	"time"
 
@@ -331,6 +333,9 @@ func TestC18Child(t *testing.T) {
 	var job struct {
 		Path string
 		Edit c18Spec
+		// FsizeLimit > 0: writes to any file fail (EFBIG) once the file would grow
+		// beyond this many bytes - a write error at a chosen byte offset.
+		FsizeLimit int64
 	}
 	if err := json.Unmarshal(data, &job); err != nil {
 		t.Fatal(err)
@@ -341,6 +346,16 @@ func TestC18Child(t *testing.T) {
 	}
 	if err := c18Apply(s, job.Edit); err != nil {
 		t.Fatal(err)
+	}
+	if job.FsizeLimit > 0 {
+		signal.Ignore(syscall.SIGXFSZ)
+		lim := syscall.Rlimit{Cur: uint64(job.FsizeLimit), Max: uint64(job.FsizeLimit)}
+		if err := syscall.Setrlimit(syscall.RLIMIT_FSIZE, &lim); err != nil {
+			t.Fatal(err)
+		}
+		err := s.Stop()
+		fmt.Printf("C18-STOP-RESULT err=%v\n", err)
+		return
 	}
 	if err := s.Stop(); err != nil {
 		t.Fatal(err)
@@ -727,7 +742,10 @@ func TestC18Crash(t *testing.T) {
 		}
 		c.Note("old=%v (%d routers) edits: +%d routers +%d mappings; traced ops: %v", hasOld, len(oldSpec.Routers), len(edit.Routers), len(edit.Mappings), opNames)
 		checkDir := filepath.Join(work, "check")
-		states, inside := 0, 0
+		states, inside, followed := 0, 0, 0
+		// Crash states after which a second, clean run is played (by running index).
+		every := c.Uniform("followup.every", 9, 40)
+		phase := c.Uniform("followup.phase", 0, 8)
 		check := func(fs c18FS, where string) {
 			_ = os.RemoveAll(checkDir)
 			_ = os.Mkdir(checkDir, 0o755)
@@ -742,6 +760,35 @@ func TestC18Crash(t *testing.T) {
 			got, _ := c18Canon(s)
 			if got != oldCanon && got != newCanon {
 				c.Fatalf("crash %s: the loaded state is neither the complete old nor the complete new state", where)
+			}
+			if states%every == phase {
+				// The run after the crash: it works on what it loaded, ends up with
+				// less to store than the interrupted write had put down, and shuts
+				// down cleanly. The run after that must find exactly that state.
+				var del c18Spec
+				for i, r := range append(append([]c18Router(nil), oldSpec.Routers...), edit.Routers...) {
+					if i%5 != 0 {
+						del.DelRouters = append(del.DelRouters, r.IP)
+					}
+				}
+				for _, mp := range append(append([]c18Mapping(nil), oldSpec.Mappings...), edit.Mappings...) {
+					del.DelMappings = append(del.DelMappings, mp.Domain)
+				}
+				if err := c18Apply(s, del); err != nil {
+					c.Fatalf("apply: %v", err)
+				}
+				want, _ := c18Canon(s)
+				if err := s.Stop(); err != nil {
+					c.Fatalf("crash %s, next run: clean shutdown failed: %v", where, err)
+				}
+				s2, err := storage.NewJSONFileStorage(filepath.Join(checkDir, "state.json"))
+				if err != nil {
+					c.Fatalf("crash %s, then a run that shut down cleanly with a smaller state: the start after that cannot load the state (%v)", where, err)
+				}
+				if got2, _ := c18Canon(s2); got2 != want {
+					c.Fatalf("crash %s, then a run that shut down cleanly: the start after that loads a different state", where)
+				}
+				followed++
 			}
 		}
 		cur := initial.clone()
@@ -787,8 +834,124 @@ func TestC18Crash(t *testing.T) {
 		}
 		nt := inside > 0 && oldCanon != newCanon
 		c.Eval(fmt.Sprintf("crash|%x|%x|%d", fnvBytes([]byte(oldCanon)), fnvBytes([]byte(newCanon)), states), nt, func() any {
-			return map[string]any{"kind": "crash", "file_operations": opNames, "crash_states_checked": states, "inside_writes": inside, "old_bytes": len(initial[path]), "new_bytes": len(model[path])}
+			return map[string]any{"kind": "crash", "file_operations": opNames, "crash_states_checked": states, "inside_writes": inside, "crash_states_followed_by_a_clean_run": followed, "old_bytes": len(initial[path]), "new_bytes": len(model[path])}
 		})
 		core.AddCount("C18", "crash_states", int64(states))
 	})
+}
+
+// TestC18WriteFault: the shutdown write fails with an error at a chosen byte
+// offset (file size limit in the child, EFBIG) instead of the process dying
+// there. Whatever Stop does about the error, the next start finds the complete
+// old or the complete new state.
+func TestC18WriteFault(t *testing.T) {
+	core.Run(t, core.Opts{ID: "C18", Quick: 12, Thorough: 400}, func(c *core.Case) {
+		work, err := os.MkdirTemp(c18Scratch(), "c18fault-")
+		if err != nil {
+			c.Fatalf("tempdir: %v", err)
+		}
+		defer os.RemoveAll(work)
+		path := filepath.Join(work, "state.json")
+		maxR := 4
+		if c.Chance("big", 1, 6) {
+			maxR = 60
+		}
+		oldSpec := c18GenSpec(c, maxR, maxR)
+		hasOld := c.Chance("has.old", 5, 6)
+		oldCanon := ""
+		if hasOld {
+			s, err := storage.NewJSONFileStorage(path)
+			if err != nil {
+				c.Fatalf("storage: %v", err)
+			}
+			if err := c18Apply(s, oldSpec); err != nil {
+				c.Fatalf("apply: %v", err)
+			}
+			oldCanon = c18Loose(c18CanonOf(s))
+			if err := s.Stop(); err != nil {
+				c.Fatalf("stop: %v", err)
+			}
+		}
+		oldData, _ := os.ReadFile(path)
+		edit := c18GenSpec(c, maxR, maxR)
+		// The complete new state, computed on a copy.
+		cpy := filepath.Join(work, "copy.json")
+		if hasOld {
+			_ = os.WriteFile(cpy, oldData, 0o644)
+		}
+		sc, err := storage.NewJSONFileStorage(cpy)
+		if err != nil {
+			c.Fatalf("storage: %v", err)
+		}
+		if err := c18Apply(sc, edit); err != nil {
+			c.Fatalf("apply: %v", err)
+		}
+		newCanon := c18Loose(c18CanonOf(sc))
+		if err := sc.Stop(); err != nil {
+			c.Fatalf("stop: %v", err)
+		}
+		newData, _ := os.ReadFile(cpy)
+		_ = os.Remove(cpy)
+
+		faults := c.Int("faults", 1, 4)
+		var tried []int64
+		for k := 0; k < faults; k++ {
+			limit := int64(c.Uniform("limit", 1, max(len(newData)-1, 1)))
+			if c.Chance("limit.edge", 1, 3) {
+				limit = int64(core.OneOf(c, "limit.e", 1, 2, len(newData)-1, len(newData)/2, 4096, 4095))
+				limit = max(min(limit, int64(len(newData)-1)), 1)
+			}
+			tried = append(tried, limit)
+			// restore the old state, remove leftovers
+			entries, _ := os.ReadDir(work)
+			for _, e := range entries {
+				_ = os.Remove(filepath.Join(work, e.Name()))
+			}
+			if hasOld {
+				_ = os.WriteFile(path, oldData, 0o644)
+			}
+			job, _ := json.Marshal(map[string]any{"Path": path, "Edit": edit, "FsizeLimit": limit})
+			specPath := filepath.Join(work, "job.json")
+			if err := os.WriteFile(specPath, job, 0o644); err != nil {
+				c.Fatalf("job: %v", err)
+			}
+			cmd := exec.Command(os.Args[0], "-test.run", "^TestC18Child$", "-test.count", "1", "-test.v")
+			cmd.Env = append(os.Environ(), "VERIF_C18_SPEC="+specPath, "VERIF_STATS_OUT=", "VERIF_REPLAY=")
+			out, err := cmd.CombinedOutput()
+			if err != nil {
+				c.Fatalf("child with a write fault at byte %d died (%v): %s", limit, err, trunc(string(out), 1500))
+			}
+			stopRes := ""
+			if i := strings.Index(string(out), "C18-STOP-RESULT"); i >= 0 {
+				stopRes = strings.SplitN(string(out)[i:], "\n", 2)[0]
+			}
+			s, err := storage.NewJSONFileStorage(path)
+			if err != nil {
+				c.Fatalf("write error at byte %d of %d during shutdown (%s): the next start cannot load the state: %v", limit, len(newData), stopRes, err)
+			}
+			got := c18Loose(c18CanonOf(s))
+			if got != oldCanon && got != newCanon {
+				c.Fatalf("write error at byte %d of %d during shutdown (%s): the next start finds neither the complete old nor the complete new state (old state existed: %v); against the new state: %s", limit, len(newData), stopRes, hasOld, c18Diff(newCanon, got))
+			}
+		}
+		c.Eval(fmt.Sprintf("fault|%x|%x|%v", fnvBytes([]byte(oldCanon)), fnvBytes([]byte(newCanon)), tried), hasOld && oldCanon != newCanon, func() any {
+			return map[string]any{"kind": "write-fault", "fault_offsets": tried, "old_bytes": len(oldData), "new_bytes": len(newData)}
+		})
+	})
+}
+
+var c18MappingCreated = regexp.MustCompile(`(?m)^(mapping .*) created=-?\d+$`)
+
+// c18Loose drops the creation time of mappings (SaveMapping stamps them with
+// the wall clock, so two runs that apply the same edits differ there).
+// Routers saved without an update time get the wall clock, too.
+func c18Loose(canon string) string {
+	return c18RouterUpdated.ReplaceAllString(c18MappingCreated.ReplaceAllString(canon, "$1"), " updated=*")
+}
+
+var c18RouterUpdated = regexp.MustCompile(` updated=-?\d+/(true|false)`)
+
+func c18CanonOf(s *storage.JSONFileStorage) string {
+	out, _ := c18Canon(s)
+	return out
 }
